@@ -11,6 +11,7 @@ import Verif.Driver.LogQLCodec
 import Verif.Driver.MetricCodec
 import Verif.Driver.SyntaxCodec
 import Verif.Model.Unparse
+import Verif.Model.Layout
 import Verif.Gen.Offload
 import Verif.Gen.Prec
 import Verif.Gen.Palette
@@ -178,6 +179,37 @@ def handle (req : Sexp) : Sexp :=
     (match Parser.parse (SyntaxCodec.reEnvOf renv) Gen.prec Gen.isLogic (toks.items.map SyntaxCodec.tokOf) with
      | some e => .list [sym "ok", SyntaxCodec.exprS e]
      | none => .list [sym "err"])
+  | some "lex", [text] =>
+    (match Lexer.tokenize text.toBytes with
+     | .ok toks => .list [sym "ok", .list (toks.map SyntaxCodec.tokS)]
+     | .err => .list [sym "err"]
+     | .unsup => .list [sym "unsup"])
+  | some "parsetext", [renv, text] =>
+    (match Layout.parseText (SyntaxCodec.reEnvOf renv) Gen.prec Gen.isLogic text.toBytes with
+     | .ok e => .list [sym "ok", SyntaxCodec.exprS e]
+     | .err => .list [sym "err"]
+     | .unsup => .list [sym "unsup"])
+  | some "layoutrt", [items] =>
+    -- executable sanity check of the layout theorem's statement: items = ((tok style gapid) ...)
+    let gapOf (n : Nat) : Layout.Gap := match n with
+      | 0 => [] | 1 => [.ws 32] | 2 => [.ws 10] | 3 => [.hash [32, 99]] | 4 => [.block [32, 120, 42, 32]]
+      | 5 => [.line [121]] | 6 => [.ws 9, .ws 13, .ws 10] | _ => [.ws 32, .hash [], .ws 32]
+    let ps : List Layout.Piece := items.items.map fun it => match it.items with
+      | [t, st, g] =>
+        let tok := SyntaxCodec.tokOf t
+        let text := match tok with
+          | .ident w => w
+          | .kw k => Layout.spellKw k
+          | .str v => Layout.spellStr (match st.toNat with | 0 => .escaped | 1 => .raw | _ => .plain) v
+          | .num x => x | .dur x => x | .bytes x => x
+        { tok := tok, text := text, gap := gapOf g.toNat }
+      | _ => { tok := .kw .parserFlag, text := [], gap := [] }
+    let ok := Layout.piecesOK ps
+    let sep := Layout.Sep ps
+    let back := match Lexer.tokenize (Layout.render ps) with
+      | .ok toks => decide ((toks.map (fun t => (SyntaxCodec.tokS t).toStr)) = (ps.map (fun p => (SyntaxCodec.tokS p.tok).toStr)))
+      | _ => false
+    .list [sym "lrt", ofNat (if ok then 1 else 0), ofNat (if sep then 1 else 0), ofNat (if back = true then 1 else 0)]
   | some "c05rt", [renv, toks] =>
     -- executable sanity check of the C05 parse-level theorem statements
     let re := SyntaxCodec.reEnvOf renv
